@@ -1,2 +1,4 @@
 import TerwayModel.Model.Net
 import TerwayModel.Props.C14
+import TerwayModel.Model.Token
+import TerwayModel.Props.C16
